@@ -472,17 +472,33 @@ pub fn run(line: &str) -> Option<(String, Vec<String>)> {
         let before_info = info(&dec);
         let res: Result<(), DecodingError> = match op {
             Op::Read(w, h) => {
-                let mut buf = vec![0xAAu8; *w as usize * *h as usize * bpp];
-                match ImageViewMut::new(&mut buf, Size::new(*w, *h), color) {
+                // the output view is strided on two of three calls: row padding must stay untouched
+                let pad = (i % 3) * 5;
+                let rowb = *w as usize * bpp;
+                let pitch = rowb + pad;
+                let len = if *w == 0 || *h == 0 { 0 } else { pitch * (*h as usize - 1) + rowb };
+                let mut buf = vec![0xAAu8; len];
+                match ImageViewMut::new_with(&mut buf, pitch, Size::new(*w, *h), color) {
                     Some(view) => {
                         let r = dec.read_surface(view);
                         if r.is_ok() && k < spec.flat.len() {
                             // content check: equals a stand-alone decode of the surface's bytes
                             let s = &spec.flat[k];
-                            let mut exp = vec![0x55u8; buf.len()];
+                            let mut exp = vec![0x55u8; rowb * *h as usize];
                             let mut cur = Cursor::new(&data[s.off as usize..(s.off + s.len) as usize]);
                             let v2 = ImageViewMut::new(&mut exp, Size::new(*w, *h), color).unwrap();
-                            if decode(&mut cur, v2, format, &DecodeOptions::default()).is_err() || exp != buf {
+                            let ok = decode(&mut cur, v2, format, &DecodeOptions::default()).is_ok();
+                            let mut same = ok;
+                            for y in 0..*h as usize {
+                                if buf[y * pitch..y * pitch + rowb] != exp[y * rowb..(y + 1) * rowb] {
+                                    same = false;
+                                }
+                                if y + 1 < *h as usize && buf[y * pitch + rowb..(y + 1) * pitch].iter().any(|b| *b != 0xAA) {
+                                    oracle.push(format!("op {i}: read_surface wrote into the row padding of the output view"));
+                                    break;
+                                }
+                            }
+                            if !same {
                                 oracle.push(format!("op {i}: read_surface content differs from the surface's own bytes"));
                             }
                         }
@@ -541,14 +557,28 @@ pub fn run(line: &str) -> Option<(String, Vec<String>)> {
                 }
                 let prefill = (0..256usize).rev().find(|v| !used[*v]).map(|v| v as u8);
                 let pf = prefill.unwrap_or(0xAA);
-                let mut buf = vec![pf; n];
-                let r = match ImageViewMut::new(&mut buf, Size::new(*w, *h), color) {
+                // strided output view on two of three calls
+                let pad = (i % 3) * 7;
+                let pitch = *w as usize * bpp + pad;
+                let blen = if *w == 0 || *h == 0 { 0 } else { pitch * (*h as usize - 1) + *w as usize * bpp };
+                let _ = n;
+                let mut buf = vec![pf; blen];
+                let r = match ImageViewMut::new_with(&mut buf, pitch, Size::new(*w, *h), color) {
                     Some(view) => dec.read_cube_map(view),
                     None => return None,
                 };
                 let mut cells_ok = true;
+                if geometry_ok && prefill.is_some() && pad > 0 {
+                    for y in 0..(*h as usize).saturating_sub(1) {
+                        let st = y * pitch + *w as usize * bpp;
+                        if buf[st..st + pad].iter().any(|b| *b != pf) {
+                            oracle.push(format!("op {i}: read_cube_map wrote into the row padding of the output view"));
+                            cells_ok = false;
+                            break;
+                        }
+                    }
+                }
                 if geometry_ok {
-                    let pitch = *w as usize * bpp;
                     let rowb = fw as usize * bpp;
                     for cy in 0..3u32 {
                         for cx in 0..4u32 {
